@@ -58,8 +58,10 @@ def gen(rng, nthreads=None):
                     acts.append("B"); inside = True
                 elif r < 0.65:
                     acts.append("F%d" % rng.randrange(NF))
-                else:
+                elif r < 0.85:
                     acts.append("D%d" % rng.randrange(ND))
+                else:
+                    acts.append("X%d" % rng.randrange(ND))     # the DAG run through a fresh executor object
         if inside:
             acts.append("E")
         progs.append(acts)
@@ -210,7 +212,7 @@ def run(sc):
                         v = fns[int(a[1:])](5)
                         res = classify(v) or ("FN%s" % a[1:] if v == ("f%s" % a[1:], 5) else "BAD:%r" % (v,))
                     else:
-                        v = dags[int(a[1:])](100 + tid)
+                        v = dags[int(a[1:])](100 + tid) if a[0] == "D" else dags[int(a[1:])].executor()(100 + tid)
                         res = classify(v) or ("DAG%s" % a[1:] if v == ("f%s" % a[1:], 100 + tid) else "BAD:%r" % (v,))
                 except BaseException as e:  # noqa: BLE001
                     res = "EXC:" + type(e).__name__
@@ -250,7 +252,7 @@ def solo(prog):
         elif a[0] == "F":
             out.append("FN" + a[1:])
         else:
-            out.append("DAG" + a[1:])
+            out.append("DAG" + a[1:])      # D<d>: a call, X<d>: a run through an executor object: both return the DAG's value
     return out
 
 
